@@ -163,7 +163,10 @@ def op_cli(op):
 def op_decode(op):
     env = Env.from_json(op["env"])
     run = simulate(op["tool"], op["opts"], unb64(op["data"]), env)
-    return {"r": ("OK:" if run.success else "FAIL:") + run.digest(), "cls": run.cls}
+    # the property speaks of the bytes written (and of success or failure), nothing else:
+    # loop counts and the stream-event log may legitimately differ (threads, buffer sizes)
+    out = run.out if run.out is not None else b"<no output>"
+    return {"r": ("OK:" if run.success else "FAIL:") + _sha(out if run.success else b""), "cls": run.cls}
 
 
 OPS = {"convert": op_convert, "cli": op_cli, "decode": op_decode}
